@@ -208,6 +208,19 @@ CLAIMED.update({
             "DESIGN.md §3 C09"),
 })
 
+CLAIMED.update({
+    "C17": ("Single-direction transfers on the real SecsIProtocol against a reactive peer model that supplies its bytes exactly when "
+            "the endpoint blocks in ByteQueue.wait_for: sending 1- and 2-block messages (symbolic tails, exact multiples of 244, all "
+            "system bytes) the line shows ENQ, EOT, block, ACK/NAK per block, success is reported iff every block was ACKed and the "
+            "peer reassembles the identical message; receiving a single-block message in chunks of symbolic sizes gives EOT then ACK "
+            "and exactly one identical delivery, and with one corrupted header / data / checksum byte (any position, any value) EOT "
+            "then NAK and no delivery.",
+            "Trusted: CrossHair + chx, oracles/refe4.py, the reactive-peer condition stub (obligations/C17.py), inline protocol thread. "
+            "NOT covered (stated): two real threads on the byte queue, contention (both sides ENQ), T1-T4 timeouts and retries, "
+            "corruption of the length byte (needs T2), multi-block reception; header fields covered field-wise.",
+            "DESIGN.md §3 C17"),
+})
+
 NOT_APPLICABLE = {
 }
 
